@@ -140,8 +140,6 @@ class Session:
         import usim
         install()
         prev = getattr(_tls, 'session', None)
-        if prev is None:
-            gc.collect()    # start from a clean slate (see the note in ``finally`` below)
         _tls.session = self
         self.armed = True
         try:
@@ -198,6 +196,10 @@ def install():
     if MISSING:
         raise RuntimeError('probe: Loop lacks %s' % MISSING)
     _installed = True
+    # everything imported so far is permanent: keep it out of the collections that are forced
+    # around every monitored run (makes them ~20x cheaper)
+    gc.collect()
+    gc.freeze()
     _orig['run'] = Loop.run
     _orig['schedule'] = Loop.schedule
     _orig['_run_coroutine'] = Loop._run_coroutine
